@@ -94,7 +94,12 @@ def version_response(version: int, seq: int, stack_type: int = 2, stack_version:
 
 
 def invalid_command(version: int, seq: int, reason: int) -> bytes:
-    return response_header(version, seq, ID_INVALID_COMMAND) + bytes([reason])
+    """invalidCommand: the reason is an 8-bit EzspStatus below v14 and a 32-bit unified status
+    from v14 on (then SL_STATUS_ZIGBEE_EZSP_ERROR unless a wider value is given)."""
+    if version >= 14:
+        r = reason if reason > 0xFF else 0x0C1E
+        return response_header(version, seq, ID_INVALID_COMMAND) + bytes([(r >> (8 * i)) & 0xFF for i in range(4)])
+    return response_header(version, seq, ID_INVALID_COMMAND) + bytes([reason & 0xFF])
 
 
 # -- little helpers for byte-level bodies -------------------------------------------------
